@@ -38,7 +38,8 @@ EXTENDS Integers, Sequences, FiniteSets, FiniteSetsExt, TLC, Json
 
 CONSTANTS
     Impl,            \* "intended" | "asfound" (as found: no bound on the number of groups, DESIGN D3)
-    Tier,            \* "quick" | "thorough" | "tiny": which families Cover contains
+    Tier,            \* "quick" | "thorough" | "tiny": how large the families of Cover are
+    Fams,            \* the families Cover contains (a TLC run may take a subset, so that runs go in parallel)
     Denom,           \* denomination prices must be in
     DepositDenom,    \* denomination of the minimum deposit parameter
     OtherDenom,      \* a well-formed denomination that is neither
@@ -285,6 +286,7 @@ BaseMsg(G, U) == [idc |-> "fresh", groups |-> [i \in 1..G |-> BaseGroup(i, U)], 
 
 SetField(m, gi, ui, f, c) == [m EXCEPT !.groups[gi].units[ui][f] = c]
 
+\* (every family is guarded by Fams: TLC evaluates all constant definitions eagerly, used or not)
 \* F1 shapes: number of groups x number of units (in every / the first / the last group)
 GroupCounts == {0, 1, 2, MaxGroupCount - 1, MaxGroupCount, MaxGroupCount + 1} \cup
                (IF Tier = "thorough" THEN {2 * MaxGroupCount + 1} ELSE {})
@@ -292,7 +294,8 @@ UnitCounts  == {0, 1, 2, MaxGroupUnits - 1, MaxGroupUnits, MaxGroupUnits + 1}
 ShapeMsg(G, U, w) ==
     [BaseMsg(G, 1) EXCEPT !.groups = [i \in 1..G |->
         BaseGroup(i, IF w = "all" \/ (w = "first" /\ i = 1) \/ (w = "last" /\ i = G) THEN U ELSE 1)]]
-F_shapes == {ShapeMsg(G, U, w) : G \in {g \in GroupCounts : g >= 0}, U \in {u \in UnitCounts : u >= 0},
+F_shapes == IF "shapes" \notin Fams THEN {} ELSE
+    {ShapeMsg(G, U, w) : G \in {g \in GroupCounts : g >= 0}, U \in {u \in UnitCounts : u >= 0},
                                  w \in {"all", "first", "last"}}
 
 \* F2 one field of one unit off its base value, at the first/last unit of the first/last group
@@ -300,17 +303,20 @@ Shapes == IF Tier = "tiny" THEN {<<1, 1>>}
           ELSE {<<1, 1>>, <<2, 2>>, <<3, 3>>, <<1, MaxGroupUnits>>, <<MaxGroupCount, 1>>} \cup
                (IF Tier = "thorough" THEN {<<MaxGroupCount, MaxGroupUnits>>, <<MaxGroupCount + 1, 1>>,
                                            <<1, MaxGroupUnits + 1>>} ELSE {})
-F_single == UNION {UNION {{SetField(BaseMsg(s[1], s[2]), gi, ui, f, c) : c \in FieldClasses(f)} :
+F_single == IF "single" \notin Fams THEN {} ELSE
+    UNION {UNION {{SetField(BaseMsg(s[1], s[2]), gi, ui, f, c) : c \in FieldClasses(f)} :
                           gi \in {1, s[1]}, ui \in {1, s[2]}, f \in Fields} : s \in Shapes}
 
 \* F3 deployment-level fields: the full product of id x version x deposit x deposit denomination
-F_dep == UNION {{[BaseMsg(s[1], s[2]) EXCEPT !.idc = i, !.version = v, !.deposit = d, !.ddenom = dd] :
+F_dep == IF "dep" \notin Fams THEN {} ELSE
+    UNION {{[BaseMsg(s[1], s[2]) EXCEPT !.idc = i, !.version = v, !.deposit = d, !.ddenom = dd] :
                     i \in IdClasses, v \in VersionClasses, d \in DepositClasses, dd \in DDenoms} :
                 s \in (IF Tier = "thorough" THEN {<<1, 1>>, <<2, 2>>} ELSE {<<1, 1>>})}
 
 \* F4 names: duplicate / empty, at the ends of the list
 NameShapes == {2, 3, MaxGroupCount}
-F_names == UNION {
+F_names == IF "names" \notin Fams THEN {} ELSE
+    UNION {
       {[BaseMsg(G, 1) EXCEPT !.groups[p[2]].name = GName(p[1])] :
            p \in {q \in {1, 2, G - 1, G} \X {1, 2, G - 1, G} : q[1] < q[2] /\ q[1] >= 1}}
       \cup {[BaseMsg(G, 1) EXCEPT !.groups[i].name = ""] : i \in {1, G}}
@@ -325,7 +331,8 @@ TotVals(r)   == {V(r, MinUnit[r], 0), Lin(Mid[r], IF Unit[r] = 1 THEN 0 ELSE Mid
 TotCounts(r) == {c \in {1, 2, K(r), K(r) + 1, MaxUnitCount} : c >= MinUnitCount /\ c <= MaxUnitCount}
 TotUnits(r)  == {[[BaseUnit EXCEPT ![r] = v] EXCEPT !.count = c] : v \in TotVals(r), c \in TotCounts(r)}
 TotSizes == IF Tier = "thorough" THEN {1, 2, 3} ELSE IF Tier = "tiny" THEN {1} ELSE {1, 2}
-F_totals == UNION {UNION {{[BaseMsg(1, 1) EXCEPT !.groups[1].units = us] : us \in [1..n -> TotUnits(r)]} :
+F_totals == IF "totals" \notin Fams THEN {} ELSE
+    UNION {UNION {{[BaseMsg(1, 1) EXCEPT !.groups[1].units = us] : us \in [1..n -> TotUnits(r)]} :
                           n \in TotSizes} : r \in Res}
             \cup (IF Tier = "thorough"
                   THEN UNION {{[BaseMsg(2, 1) EXCEPT !.groups[2].units = us] : us \in [1..2 -> TotUnits(r)]} : r \in Res}
@@ -338,17 +345,20 @@ FieldPairs == {<<"cpu", "mem">>, <<"cpu", "sto">>, <<"mem", "sto">>,
                <<"count", "price">>, <<"count", "pdenom">>, <<"price", "pdenom">>}
 PairPos == IF Tier = "thorough" THEN {<<1, 1, 1, 1>>, <<2, 2, 1, 1>>, <<2, 2, 2, 2>>, <<2, 2, 1, 2>>}
            ELSE IF Tier = "tiny" THEN {} ELSE {<<1, 1, 1, 1>>}
-F_pairs == UNION {UNION {{SetField(SetField(BaseMsg(q[1], q[2]), q[3], q[4], p[1], c1), q[3], q[4], p[2], c2) :
+F_pairs == IF "pairs" \notin Fams THEN {} ELSE
+    UNION {UNION {{SetField(SetField(BaseMsg(q[1], q[2]), q[3], q[4], p[1], c1), q[3], q[4], p[2], c2) :
                             c1 \in FieldClasses(p[1]), c2 \in FieldClasses(p[2])} : p \in FieldPairs} : q \in PairPos}
 
 \* F7 (thorough) two fields of two different units (same group / different groups)
 CrossPos == {<<1, 1, 1, 2>>, <<1, 1, 2, 1>>, <<1, 2, 2, 2>>}
-F_cross == IF Tier # "thorough" THEN {} ELSE
+F_cross == IF "cross" \notin Fams THEN {} ELSE
+    IF Tier # "thorough" THEN {} ELSE
     UNION {UNION {{SetField(SetField(BaseMsg(2, 2), q[1], q[2], f1, c1), q[3], q[4], f2, c2) :
                        c1 \in FieldClasses(f1), c2 \in FieldClasses(f2)} : f1 \in Fields, f2 \in Fields} : q \in CrossPos}
 
 \* F8 (thorough) a unit-level or shape violation together with each deployment-level class
-F_mix == IF Tier # "thorough" THEN {} ELSE
+F_mix == IF "mix" \notin Fams THEN {} ELSE
+    IF Tier # "thorough" THEN {} ELSE
     UNION {{[b EXCEPT !.version = v] : v \in VersionClasses} \cup {[b EXCEPT !.deposit = d] : d \in DepositClasses}
            \cup {[b EXCEPT !.ddenom = dd] : dd \in DDenoms} \cup {[b EXCEPT !.idc = i] : i \in IdClasses} :
            b \in {ShapeMsg(MaxGroupCount + 1, 1, "all"), ShapeMsg(MaxGroupCount, 1, "all"),
@@ -357,8 +367,10 @@ F_mix == IF Tier # "thorough" THEN {} ELSE
                   SetField(BaseMsg(1, 1), 1, 1, "price", N(MaxUnitPrice + 1))}}
 
 Tag(f, S) == {[fam |-> f, m |-> x, n |-> 0] : x \in S}
-Cover == Tag("shapes", F_shapes) \cup Tag("single", F_single) \cup Tag("dep", F_dep) \cup Tag("names", F_names)
-         \cup Tag("totals", F_totals) \cup Tag("pairs", F_pairs) \cup Tag("cross", F_cross) \cup Tag("mix", F_mix)
+AllFams == {"shapes", "single", "dep", "names", "totals", "pairs", "cross", "mix"}
+Family(f) == CASE f = "shapes" -> F_shapes [] f = "single" -> F_single [] f = "dep" -> F_dep [] f = "names" -> F_names
+               [] f = "totals" -> F_totals [] f = "pairs" -> F_pairs [] f = "cross" -> F_cross [] f = "mix" -> F_mix
+Cover == UNION {Tag(f, Family(f)) : f \in Fams \cap AllFams}
 
 -----------------------------------------------------------------------------
 (* Behaviours: each enumerated message is submitted to the base chain state *)
